@@ -64,6 +64,18 @@ def run_nested(n):
         Asset('spare', value=vals[0] / T + 1)
         Asset('spare', value=vals[-1] / T + 2)
         m1, m2 = Maintainer(), Maintainer()          # (both get the library's default name)
+        # one asset of every class that takes a starting value (a purchase cost, say): it is where the value history starts
+        from simprocesd.model.factory_floor import PartHandler, PartFlowController, PartBatcher
+        from simprocesd.model.sensors import Sensor, PeriodicSensor, OutputPartSensor, AttributeProbe
+        from simprocesd.model.cms import Cms
+        sv = -(10 + vals[0] % 7)
+        started = [
+            (Asset('a0', value=sv), sv), (PartHandler('h0', value=sv - 1), sv - 1), (PartFlowController('f0', value=sv - 2), sv - 2),
+            (PartBatcher('b0', value=sv - 3, output_batch_size=2), sv - 3), (Buffer('u0', capacity=1, value=sv - 4), sv - 4),
+            (PartProcessor('p0', value=sv - 5), sv - 5), (Maintainer('mt0', value=sv - 6), sv - 6), (Cms(None, 'c0', value=sv - 7), sv - 7),
+            (Sensor([AttributeProbe('value', mid)], 's0', value=sv - 8), sv - 8),
+            (PeriodicSensor(2.5, [AttributeProbe('value', mid)], 's1', value=sv - 9), sv - 9),
+            (OutputPartSensor(mid, [AttributeProbe('value', None)], 1, 's2', value=sv - 10), sv - 10)]
         system.simulate(n['d'] / T, print_summary=False)
         m1.add_cost('tools', 3)
         m2.add_cost('tools', 5)
@@ -76,7 +88,8 @@ def run_nested(n):
                net=common.to_ticks(system.get_net_value_of_assets()),
                sum_assets=common.to_ticks(sum(a.value for a in system._assets)),
                hists=[h for it in items for h in _leaf_hists(Batch, it)],
-               level=buf.level(), stored=sum(len(b.parts) if isinstance(b, Batch) else 1 for b in buf.stored_parts))
+               level=buf.level(), stored=sum(len(b.parts) if isinstance(b, Batch) else 1 for b in buf.stored_parts),
+               started=[(type(a).__name__, common.to_ticks(a.value), common.to_ticks(v0), common.to_ticks(sum(h[2] for h in a.value_history))) for a, v0 in started])
     return res
 
 
@@ -105,6 +118,10 @@ def monitor_c16(sc, obs):
         bad('C16/sink-value', 'nested batches: the sink is worth %d/8 (received value %d/8), the parts it received sum to %d/8' % (r['sink_value'], r['sink_received'], tot))
     if r['src_value'] != -r['src_cost']:
         bad('C16/source-value', 'nested batches: the source is worth %d/8, the cost of the parts it supplied is %d/8' % (r['src_value'], r['src_cost']))
+    for cls, val, v0, changes in r.get('started', []):
+        if val != v0 + changes:
+            bad('C16/starting-value', 'a %s created with starting value %d/8 is worth %d/8, its value history adds up to %d/8' % (cls, v0, val, changes))
+            break
     if r['net'] != r['sum_assets']:
         bad('C16/net-value', 'the system net value %d/8 is not the sum of the registered assets\' values %d/8' % (r['net'], r['sum_assets']))
     return v
